@@ -1,6 +1,1540 @@
-//! C09 -- monitor (to be written)
-use crate::fw::ctx;
+//! C09 -- both graph backends behave identically and stay internally consistent.
+//!
+//! Events: every operation of a generated history (gen/history.rs) is applied to
+//! `vec_graph::Graph`, `hash_graph::Graph` and the reference model O5 (oracle/refgraph.rs).
+//! A harness-maintained bijection model-id <-> backend-id per backend translates names.
+//! After EVERY operation the full observable state of each backend is compared with the
+//! model through the bijection, plus per-backend internal consistency. The oracle is the
+//! model (documented meaning of the operation), never the other backend alone.
+//!
+//! Signature = `<operation kind>|<check that failed>|<backend(s)>`.
+
+use crate::fw::{ctx, guarded, par_cases, Caught};
+use crate::gen::history::*;
+use crate::gen::prng::{hash_str, Rng};
+use crate::oracle::refgraph::{self, MData, Par, Ph, RefGraph, M};
+use crate::oracle::ring::{r_of_scalar, scalar_is_approx, Num, R};
+use num::rational::Rational64;
+use quizx::graph::{BasisElem, Coord, EType, GraphLike, VData, VType, V};
+use quizx::params::{Expr, Parity};
+use quizx::phase::Phase;
+use quizx::scalar::Scalar4;
+use serde_json::{json, Value};
+use std::collections::{BTreeMap, BTreeSet};
+use std::sync::{Mutex, OnceLock};
+
+type VG = quizx::vec_graph::Graph;
+type HG = quizx::hash_graph::Graph;
+
+pub trait Kind: GraphLike + PartialEq {
+    type Cross: GraphLike;
+    const NAME: &'static str;
+}
+impl Kind for VG {
+    type Cross = HG;
+    const NAME: &'static str = "vec";
+}
+impl Kind for HG {
+    type Cross = VG;
+    const NAME: &'static str = "hash";
+}
+
+// ---------------------------------------------------------------------------------------
+// conversions model value -> quizx value (inputs only) and comparisons
+// ---------------------------------------------------------------------------------------
+
+fn to_phase(p: Ph) -> Phase {
+    Phase::new(Rational64::new(p.n, p.d))
+}
+fn to_parity(p: &Par) -> Parity {
+    Parity::new(p.sorted_vars(), p.c)
+}
+fn to_vdata(d: &MData) -> VData {
+    VData { ty: d.ty, phase: to_phase(d.phase), vars: to_parity(&d.vars), qubit: d.qubit, row: d.row }
+}
+fn to_scalar(s: &([i64; 4], i32)) -> Scalar4 {
+    Scalar4::new(s.0, s.1)
+}
+fn r_of(s: &([i64; 4], i32)) -> R {
+    R::from_i64s(s.0, s.1 as i64)
+}
+fn phase_eq(p: Phase, m: Ph) -> bool {
+    let r = p.to_rational();
+    *r.numer() == m.n && *r.denom() == m.d
+}
+fn phase_txt(p: Phase) -> String {
+    let r = p.to_rational();
+    format!("{}/{}", r.numer(), r.denom())
+}
+
+pub fn expr_pool() -> &'static Vec<Expr> {
+    static POOL: OnceLock<Vec<Expr>> = OnceLock::new();
+    POOL.get_or_init(|| {
+        let p = |v: &[u32], c: bool| Parity::new(v.to_vec(), c);
+        vec![
+            Expr::linear(p(&[0], false)),
+            Expr::linear(p(&[1], false)),
+            Expr::linear(p(&[0, 1], false)),
+            Expr::linear(p(&[2], true)),
+            Expr::linear(p(&[], true)),
+            Expr::quadratic(p(&[1], false), p(&[2], false)),
+            Expr::quadratic(p(&[1, 2], false), p(&[3], false)),
+            Expr::quadratic(p(&[2], false), p(&[3], true)),
+        ]
+    })
+}
+
+// ---------------------------------------------------------------------------------------
+// a backend under test with its name bijection
+// ---------------------------------------------------------------------------------------
+
+#[derive(Clone)]
+pub struct Bk<G: GraphLike> {
+    pub g: G,
+    pub m2b: BTreeMap<M, V>,
+    pub b2m: BTreeMap<V, M>,
+}
+
+impl<G: GraphLike> Bk<G> {
+    fn new() -> Self {
+        Bk { g: G::new(), m2b: BTreeMap::new(), b2m: BTreeMap::new() }
+    }
+    fn b(&self, m: M) -> V {
+        *self.m2b.get(&m).unwrap_or_else(|| panic!("harness: model id m{m} has no backend name"))
+    }
+    fn bind(&mut self, m: M, v: V) {
+        self.m2b.insert(m, v);
+        self.b2m.insert(v, m);
+    }
+    fn unbind(&mut self, m: M) {
+        if let Some(v) = self.m2b.remove(&m) {
+            self.b2m.remove(&v);
+        }
+    }
+    fn set_map(&mut self, m2b: BTreeMap<M, V>) {
+        self.b2m = m2b.iter().map(|(&m, &v)| (v, m)).collect();
+        self.m2b = m2b;
+    }
+    fn dump(&self) -> Value {
+        let g = &self.g;
+        let r = guarded(|| {
+            let mut vs: Vec<V> = g.vertices().collect();
+            vs.sort();
+            let vd: Vec<String> = vs
+                .iter()
+                .map(|&v| {
+                    let d = g.vertex_data(v);
+                    format!("{v}(m{:?}):{:?} ph={} vars={:?} q={} r={}", self.b2m.get(&v), d.ty, phase_txt(d.phase), d.vars, d.qubit, d.row)
+                })
+                .collect();
+            let mut es: Vec<(V, V, EType)> = g.edges().collect();
+            es.sort();
+            json!({"vindex": g.vindex(), "num_vertices": g.num_vertices(), "num_edges": g.num_edges(), "vertices": vd,
+                   "edges": format!("{es:?}"), "inputs": g.inputs(), "outputs": g.outputs(), "scalar": format!("{}", r_of_scalar(g.scalar()))})
+        });
+        r.unwrap_or_else(|e| json!({"dump-panicked": e.text()}))
+    }
+}
+
+fn model_dump(m: &RefGraph) -> Value {
+    let vd: Vec<String> =
+        m.v.iter().map(|(k, d)| format!("m{k}:{:?} ph={}/{} vars={:?}^{} q={} r={}", d.ty, d.phase.n, d.phase.d, d.vars.sorted_vars(), d.vars.c, d.qubit, d.row)).collect();
+    json!({"vertices": vd, "edges": format!("{:?}", m.edges()), "inputs": m.inputs, "outputs": m.outputs, "scalar": format!("{}", m.scalar),
+           "factors": m.factors.iter().map(|(k, v)| format!("{k}:{v}")).collect::<Vec<_>>()})
+}
+
+// ---------------------------------------------------------------------------------------
+// full observable-state comparison
+// ---------------------------------------------------------------------------------------
+
+pub struct Mis {
+    items: Vec<(String, Value)>,
+}
+impl Mis {
+    fn add(&mut self, tag: &str, expected: impl std::fmt::Debug, observed: impl std::fmt::Debug) {
+        if !self.items.iter().any(|(t, _)| t == tag) {
+            self.items.push((tag.to_string(), json!({"expected": format!("{expected:?}"), "observed": format!("{observed:?}")})));
+        }
+    }
+}
+
+/// `structure_only`: compare vertices, data and edges only (result of
+/// subgraph_from_vertices, whose inputs/outputs/scalar are not documented).
+fn check_inner<G: GraphLike>(mo: &RefGraph, bk: &Bk<G>, structure_only: bool, mis: &mut Mis) {
+    let g = &bk.g;
+    let tm = |v: V| bk.b2m.get(&v).copied();
+    // ---- vertices: enumeration, counts
+    let vs: Vec<V> = g.vertices().collect();
+    let vset: BTreeSet<V> = vs.iter().copied().collect();
+    if vset.len() != vs.len() {
+        mis.add("vertices()-yields-duplicates", "each vertex once", &vs);
+    }
+    if g.num_vertices() != vs.len() {
+        mis.add("num_vertices!=enumeration", vs.len(), g.num_vertices());
+    }
+    let exp_vset: BTreeSet<V> = bk.b2m.keys().copied().collect();
+    if vset != exp_vset {
+        mis.add("vertex-set", &exp_vset, &vset);
+        return; // everything below would be noise
+    }
+    if g.num_vertices() != mo.num_vertices() {
+        mis.add("num_vertices", mo.num_vertices(), g.num_vertices());
+    }
+    let mut vv = g.vertex_vec();
+    vv.sort();
+    if vv != vset.iter().copied().collect::<Vec<_>>() {
+        mis.add("vertex_vec", &vset, &vv);
+    }
+    let vi = g.vindex();
+    if let Some(&mx) = vset.iter().next_back() {
+        if mx >= vi {
+            mis.add("vindex-not-fresh", format!("vindex > every live id (max {mx})"), vi);
+        }
+    }
+    // ---- per-vertex data through every getter
+    for (&m, d) in &mo.v {
+        let v = bk.b(m);
+        let vd = g.vertex_data(v);
+        let par = to_parity(&d.vars);
+        if vd.ty != d.ty {
+            mis.add("vertex_data.ty", (m, d.ty), vd.ty);
+        }
+        if !phase_eq(vd.phase, d.phase) {
+            mis.add("vertex_data.phase", (m, d.phase), phase_txt(vd.phase));
+        }
+        let pr = vd.phase.to_rational();
+        if !(-*pr.denom() < *pr.numer() && *pr.numer() <= *pr.denom()) {
+            mis.add("phase-not-normalised", "in (-1,1]", phase_txt(vd.phase));
+        }
+        if vd.vars != par {
+            mis.add("vertex_data.vars", (m, &d.vars), &vd.vars);
+        }
+        if vd.qubit != d.qubit || vd.row != d.row {
+            mis.add("vertex_data.coords", (m, d.qubit, d.row), (vd.qubit, vd.row));
+        }
+        if g.vertex_type(v) != d.ty || g.vertex_type_opt(v) != Some(d.ty) {
+            mis.add("vertex_type", (m, d.ty), g.vertex_type(v));
+        }
+        if !phase_eq(g.phase(v), d.phase) {
+            mis.add("phase()", (m, d.phase), phase_txt(g.phase(v)));
+        }
+        if g.vars(v) != par {
+            mis.add("vars()", (m, &d.vars), g.vars(v));
+        }
+        let (pp, pv) = g.phase_and_vars(v);
+        if !phase_eq(pp, d.phase) || pv != par {
+            mis.add("phase_and_vars()", (m, d.phase, &d.vars), (phase_txt(pp), pv));
+        }
+        if g.qubit(v) != d.qubit || g.row(v) != d.row {
+            mis.add("qubit()/row()", (m, d.qubit, d.row), (g.qubit(v), g.row(v)));
+        }
+        let c: Coord = g.coord(v);
+        if c.x != d.row || c.y != d.qubit || c.qubit() != d.qubit || c.row() != d.row {
+            mis.add("coord()", (m, d.row, d.qubit), (c.x, c.y));
+        }
+        match g.vertex_data_opt(v) {
+            Some(o) if o == vd => {}
+            other => mis.add("vertex_data_opt(live)", "Some(same data)", other),
+        }
+    }
+    // ---- edges
+    let es: Vec<(V, V, EType)> = g.edges().collect();
+    if g.num_edges() != es.len() {
+        mis.add("num_edges!=enumeration", es.len(), g.num_edges());
+    }
+    let mut mapped = vec![];
+    for &(s, t, e) in &es {
+        if s > t {
+            mis.add("edges()-not-normalised(s>t)", "s <= t", (s, t));
+        }
+        match (tm(s), tm(t)) {
+            (Some(a), Some(b)) => mapped.push((a.min(b), a.max(b), e)),
+            _ => mis.add("edge-to-missing-vertex", "both ends live", (s, t, e)),
+        }
+    }
+    mapped.sort();
+    let exp_edges = mo.edges();
+    if mapped != exp_edges {
+        mis.add("edge-list", &exp_edges, &mapped);
+    }
+    if g.num_edges() != mo.num_edges() {
+        mis.add("num_edges", mo.num_edges(), g.num_edges());
+    }
+    let mut ev = g.edge_vec();
+    let mut es_sorted = es.clone();
+    ev.sort();
+    es_sorted.sort();
+    if ev != es_sorted {
+        mis.add("edge_vec", &es_sorted, &ev);
+    }
+    // ---- inputs / outputs
+    if !structure_only {
+        let mi: Vec<Option<M>> = g.inputs().iter().map(|&v| tm(v)).collect();
+        let ei: Vec<Option<M>> = mo.inputs.iter().map(|&m| Some(m)).collect();
+        if mi != ei {
+            mis.add("inputs", &mo.inputs, (&mi, g.inputs()));
+        }
+        let mi: Vec<Option<M>> = g.outputs().iter().map(|&v| tm(v)).collect();
+        let ei: Vec<Option<M>> = mo.outputs.iter().map(|&m| Some(m)).collect();
+        if mi != ei {
+            mis.add("outputs", &mo.outputs, (&mi, g.outputs()));
+        }
+    }
+    // ---- adjacency per vertex
+    for &m in mo.v.keys() {
+        let v = bk.b(m);
+        let exp = mo.nbrs(m);
+        if g.degree(v) != exp.len() {
+            mis.add("degree", (m, exp.len()), g.degree(v));
+        }
+        let mut nb: Vec<Option<M>> = g.neighbors(v).map(tm).collect();
+        nb.sort();
+        let en: Vec<Option<M>> = exp.iter().map(|x| Some(x.0)).collect();
+        if nb != en {
+            mis.add("neighbors", (m, &en), &nb);
+        }
+        let inc: Vec<(V, EType)> = g.incident_edges(v).collect();
+        let mut im: Vec<(Option<M>, EType)> = inc.iter().map(|&(w, e)| (tm(w), e)).collect();
+        im.sort();
+        let ee: Vec<(Option<M>, EType)> = exp.iter().map(|x| (Some(x.0), x.1)).collect();
+        if im != ee {
+            mis.add("incident_edges", (m, &ee), &im);
+        }
+        for &(w, e) in &inc {
+            if !vset.contains(&w) {
+                mis.add("edge-to-missing-vertex", "live neighbour", (v, w));
+            } else if !g.incident_edges(w).any(|x| x == (v, e)) {
+                mis.add("adjacency-asymmetric", format!("{w} lists ({v},{e:?})"), g.incident_edge_vec(w));
+            }
+        }
+        let mut a = g.neighbor_vec(v);
+        let mut b: Vec<V> = inc.iter().map(|x| x.0).collect();
+        a.sort();
+        b.sort();
+        if a != b {
+            mis.add("neighbor_vec", &b, &a);
+        }
+        let mut a = g.incident_edge_vec(v);
+        let mut b = inc.clone();
+        a.sort();
+        b.sort();
+        if a != b {
+            mis.add("incident_edge_vec", &b, &a);
+        }
+    }
+    // ---- all ordered pairs, including absent vertices
+    let mut ids: Vec<V> = vset.iter().copied().collect();
+    let mut missing: Vec<V> = (0..vi + 2).filter(|x| !vset.contains(x)).collect();
+    if missing.len() > 5 {
+        let tail = missing.split_off(missing.len() - 2);
+        missing.truncate(3);
+        missing.extend(tail);
+    }
+    ids.extend(missing.iter().copied());
+    for &a in &ids {
+        for &b in &ids {
+            let exp = match (tm(a), tm(b)) {
+                (Some(x), Some(y)) => mo.edge(x, y),
+                _ => None,
+            };
+            let got = g.edge_type_opt(a, b);
+            if got != exp {
+                mis.add("edge_type_opt", ((a, b), exp), got);
+            }
+            if g.connected(a, b) != exp.is_some() {
+                mis.add("connected", ((a, b), exp.is_some()), g.connected(a, b));
+            }
+            if let Some(e) = exp {
+                if g.edge_type(a, b) != e {
+                    mis.add("edge_type", ((a, b), e), g.edge_type(a, b));
+                }
+            }
+        }
+    }
+    // ---- membership over 0..vindex+2
+    for x in 0..vi + 2 {
+        let live = vset.contains(&x);
+        if g.contains_vertex(x) != live {
+            mis.add("contains_vertex", (x, live), g.contains_vertex(x));
+        }
+        if g.vertex_data_opt(x).is_some() != live {
+            mis.add("vertex_data_opt", (x, live), g.vertex_data_opt(x));
+        }
+        let et = tm(x).map(|m| mo.v[&m].ty);
+        if g.vertex_type_opt(x) != et {
+            mis.add("vertex_type_opt", (x, et), g.vertex_type_opt(x));
+        }
+    }
+    // ---- find_vertex
+    for &v in &vset {
+        if g.find_vertex(|x| x == v) != Some(v) {
+            mis.add("find_vertex", Some(v), g.find_vertex(|x| x == v));
+        }
+    }
+    for &x in &missing {
+        if g.find_vertex(|y| y == x).is_some() {
+            mis.add("find_vertex", "None for a missing id", x);
+        }
+    }
+    {
+        let any_x = mo.v.values().any(|d| d.ty == VType::X);
+        match g.find_vertex(|x| g.vertex_type(x) == VType::X) {
+            Some(v) if vset.contains(&v) && g.vertex_type(v) == VType::X && any_x => {}
+            None if !any_x => {}
+            other => mis.add("find_vertex", format!("an X vertex exists: {any_x}"), other),
+        }
+    }
+    // ---- find_edge: existence + predicate satisfaction (symmetric predicates)
+    {
+        let any_h = exp_edges.iter().any(|x| x.2 == EType::H);
+        match g.find_edge(|_, _, e| e == EType::H) {
+            Some((s, t, e)) => {
+                let ok = e == EType::H && any_h && matches!((tm(s), tm(t)), (Some(a), Some(b)) if mo.edge(a, b) == Some(EType::H));
+                if !ok {
+                    mis.add("find_edge", format!("an H edge exists: {any_h}"), (s, t, e));
+                }
+                if s > t {
+                    mis.add("find_edge:result-not-normalised(s>t)", "an edge is a triple with s <= t", (s, t, e));
+                }
+            }
+            None if !any_h => {}
+            None => mis.add("find_edge", "Some(H edge)", "None"),
+        }
+        let mut probes: Vec<((V, V), Option<EType>)> = vec![];
+        if let Some(&(a, b, e)) = exp_edges.first() {
+            probes.push(((bk.b(a), bk.b(b)), Some(e)));
+        }
+        if let Some(&(a, b, e)) = exp_edges.last() {
+            probes.push(((bk.b(b), bk.b(a)), Some(e)));
+        }
+        'outer: for &a in &ids {
+            for &b in &ids {
+                if a != b && !matches!((tm(a), tm(b)), (Some(x), Some(y)) if mo.edge(x, y).is_some()) {
+                    probes.push(((a, b), None));
+                    break 'outer;
+                }
+            }
+        }
+        for ((a, b), exp) in probes {
+            let got = g.find_edge(|s, t, _| (s, t) == (a, b) || (s, t) == (b, a));
+            match (got, exp) {
+                (None, None) => {}
+                (Some((s, t, e)), Some(ee)) if e == ee && ((s, t) == (a, b) || (s, t) == (b, a)) => {
+                    if s > t {
+                        mis.add("find_edge:result-not-normalised(s>t)", "an edge is a triple with s <= t", (s, t, e));
+                    }
+                }
+                (got, exp) => mis.add("find_edge", ((a, b), exp), got),
+            }
+        }
+        // an order-sensitive query: edges are triples (s,t,_) with s <= t, so nothing has s > t
+        if let Some(x) = g.find_edge(|s, t, _| s > t) {
+            mis.add("find_edge:order-sensitive-predicate(s>t)-answered", "None", x);
+        }
+    }
+    // ---- derived queries
+    if g.tcount() != mo.tcount() {
+        mis.add("tcount", mo.tcount(), g.tcount());
+    }
+    {
+        let mut comps: Vec<Vec<Option<M>>> = g
+            .component_vertices()
+            .into_iter()
+            .map(|c| {
+                let mut l: Vec<Option<M>> = c.into_iter().map(tm).collect();
+                l.sort();
+                l
+            })
+            .collect();
+        comps.sort();
+        let exp: Vec<Vec<Option<M>>> = mo.components().into_iter().map(|c| c.into_iter().map(Some).collect()).collect();
+        if comps != exp {
+            mis.add("component_vertices", &exp, &comps);
+        }
+    }
+    if let Some(mr) = mo.max_row() {
+        if g.depth() != mr {
+            mis.add("depth", mr, g.depth());
+        }
+    }
+    {
+        let nodes: Vec<V> = vset.iter().copied().collect();
+        let a = g.adjacency_matrix(Some(&nodes));
+        let mut ok = a.rows() == nodes.len() && a.cols() == nodes.len();
+        if ok {
+            for (i, &x) in nodes.iter().enumerate() {
+                for (j, &y) in nodes.iter().enumerate() {
+                    let e = mo.edge(bk.b2m[&x], bk.b2m[&y]).is_some();
+                    if a.bit(i, j) != e {
+                        ok = false;
+                    }
+                }
+            }
+        }
+        if !ok {
+            mis.add("adjacency_matrix", "model adjacency", "differs");
+        }
+    }
+    // ---- scalar and scalar factors
+    if !structure_only {
+        if scalar_is_approx(g.scalar()) {
+            mis.add("SKIP:scalar-approx", "", "");
+        } else {
+            let s = r_of_scalar(g.scalar());
+            if s != mo.scalar {
+                mis.add("scalar", format!("{}", mo.scalar), format!("{s}"));
+            }
+        }
+        let pool = expr_pool();
+        for (k, e) in pool.iter().enumerate() {
+            let got = g.get_scalar_factor(e).map(|s| r_of_scalar(&s));
+            if got.as_ref() != mo.factors.get(&k) {
+                mis.add("get_scalar_factor", (k, mo.factors.get(&k).map(|x| x.to_string())), got.map(|x| x.to_string()));
+            }
+        }
+        let fs: Vec<(Option<usize>, R)> = g.scalar_factors().map(|(e, s)| (pool.iter().position(|p| p == e), r_of_scalar(s))).collect();
+        let mut ok = fs.len() == mo.factors.len();
+        for (k, s) in &fs {
+            ok &= matches!(k, Some(k) if mo.factors.get(k) == Some(s));
+        }
+        if !ok {
+            mis.add("scalar_factors", mo.factors.len(), fs.len());
+        }
+    }
+}
+
+/// Outcome of a comparison: list of (check tag, detail); tags starting with `HARNESS:` or
+/// `ORACLE:` are not verdicts about quizx.
+fn check_state<G: GraphLike>(mo: &RefGraph, bk: &Bk<G>, structure_only: bool) -> Vec<(String, Value)> {
+    let r = guarded(|| {
+        let mut mis = Mis { items: vec![] };
+        check_inner(mo, bk, structure_only, &mut mis);
+        mis.items
+    });
+    match r {
+        Ok(items) => items,
+        Err(Caught::Oracle(m)) => vec![("ORACLE:".to_string() + &m, json!(m))],
+        Err(e) => classify_panic("query-panic", e),
+    }
+}
+
+fn classify_panic(what: &str, e: Caught) -> Vec<(String, Value)> {
+    match &e {
+        Caught::Panic { loc, .. } if loc.contains("harness/src") => vec![(format!("HARNESS:{}", e.text()), json!(e.text()))],
+        Caught::Oracle(m) => vec![(format!("ORACLE:{m}"), json!(m))],
+        _ => vec![(format!("{what}:{}", e.site()), json!(e.text()))],
+    }
+}
+
+// ---------------------------------------------------------------------------------------
+// the model side of one operation
+// ---------------------------------------------------------------------------------------
+
+#[derive(Default)]
+struct ModelOut {
+    /// expected value of a derived graph (clone / copy / to_adjoint / subgraph), model ids kept
+    derived: Option<RefGraph>,
+    /// append_graph: the appended graph and the names of its copies
+    other: Option<(RefGraph, BTreeMap<M, M>)>,
+    label: Option<&'static str>,
+}
+
+fn retags(op: &Op) -> bool {
+    matches!(op, Op::Pack { .. } | Op::Copy { .. } | Op::Subgraph { .. })
+}
+
+fn retag(g: &mut RefGraph, base: u64) {
+    for (i, m) in g.vertices().into_iter().enumerate() {
+        g.set_qubit(m, (base + i as u64) as f64 + 0.5).unwrap();
+    }
+}
+
+/// Apply `op` to the model; `Err` = the operation is not valid in this state (documented
+/// precondition or harness policy not met) and nothing may be issued.
+fn apply_model(g: &mut RefGraph, op: &Op, named_ok: Option<bool>, tag_base: u64) -> Result<ModelOut, String> {
+    let mut out = ModelOut::default();
+    let all_live = |g: &RefGraph, l: &[M]| l.iter().all(|&m| g.has(m));
+    if retags(op) {
+        retag(g, tag_base);
+    }
+    match op {
+        Op::AddVertex { ty, m } => g.add_vertex(*m, MData::of_type(*ty))?,
+        Op::AddVertexWithData { d, m } => g.add_vertex(*m, d.clone())?,
+        Op::AddVertexWithPhase { ty, ph, m } => g.add_vertex(*m, MData { phase: Ph::new(ph.0, ph.1), ..MData::of_type(*ty) })?,
+        Op::AddNamed { d, m, .. } => match named_ok {
+            None => return Err("named id live in one backend and free in the other".into()),
+            Some(true) => g.add_vertex(*m, d.clone())?,
+            Some(false) => {
+                if g.has(*m) {
+                    return Err("model id reused".into());
+                }
+            }
+        },
+        Op::RemoveVertex { m } => {
+            if g.inputs.contains(m) || g.outputs.contains(m) {
+                return Err("harness policy: vertex still listed as input/output".into());
+            }
+            g.remove_vertex(*m)?
+        }
+        Op::AddEdge { s, t } => g.add_edge_with_type(*s, *t, EType::N)?,
+        Op::AddEdgeWithType { s, t, e } => g.add_edge_with_type(*s, *t, *e)?,
+        Op::AddEdgeSmart { s, t, e } => out.label = Some(g.add_edge_smart(*s, *t, *e)?),
+        Op::RemoveEdge { s, t } => g.remove_edge(*s, *t)?,
+        Op::SetEdgeType { s, t, e } => g.set_edge_type(*s, *t, *e)?,
+        Op::ToggleEdgeType { s, t } => g.toggle_edge_type(*s, *t)?,
+        Op::SetPhase { m, ph } => g.set_phase(*m, Ph::new(ph.0, ph.1))?,
+        Op::AddToPhase { m, ph } => g.add_to_phase(*m, Ph::new(ph.0, ph.1))?,
+        Op::SetVertexType { m, ty } => g.set_type(*m, *ty)?,
+        Op::SetCoord { m, x, y } => g.set_coord(*m, *x, *y)?,
+        Op::SetQubit { m, q } => g.set_qubit(*m, *q)?,
+        Op::SetRow { m, r } => g.set_row(*m, *r)?,
+        Op::SetVars { m, vars } => g.set_vars(*m, vars.clone())?,
+        Op::AddToVars { m, vars } => g.add_to_vars(*m, vars)?,
+        Op::SetInputs(l) => {
+            if !all_live(g, l) {
+                return Err("input not live".into());
+            }
+            g.inputs = l.clone();
+        }
+        Op::SetOutputs(l) => {
+            if !all_live(g, l) {
+                return Err("output not live".into());
+            }
+            g.outputs = l.clone();
+        }
+        Op::InputsMut(e) => {
+            if !list_edit_valid(g.inputs.len(), e, |m| g.has(m)) {
+                return Err("list edit invalid".into());
+            }
+            apply_list_edit(&mut g.inputs, e, |m| m);
+        }
+        Op::OutputsMut(e) => {
+            if !list_edit_valid(g.outputs.len(), e, |m| g.has(m)) {
+                return Err("list edit invalid".into());
+            }
+            apply_list_edit(&mut g.outputs, e, |m| m);
+        }
+        Op::Scalar(e) => match e {
+            ScalarEdit::MulSqrt2Pow(p) => g.scalar = g.scalar.mul(&R::sqrt2_pow(*p as i64)),
+            ScalarEdit::MulPhase(k) => g.scalar = g.scalar.mul(&R::omega_pow(k.rem_euclid(8))),
+            ScalarEdit::MulBy(c, p) => g.scalar = g.scalar.mul(&r_of(&(*c, *p))),
+            ScalarEdit::Assign(c, p) => g.scalar = r_of(&(*c, *p)),
+        },
+        Op::MulScalarFactor { key, s } => {
+            if *key >= EXPR_POOL {
+                return Err("no such expression".into());
+            }
+            g.mul_scalar_factor(*key, &r_of(s))
+        }
+        Op::XToZ => g.x_to_z(),
+        Op::Adjoint => g.adjoint(),
+        Op::Pack { .. } => {}
+        Op::Clone { .. } => out.derived = Some(g.clone()),
+        Op::Copy { adjoint, .. } => out.derived = Some(g.copy(*adjoint)),
+        Op::ToAdjoint => out.derived = Some(g.copy(true)),
+        Op::Subgraph { verts } => out.derived = Some(g.subgraph(verts)?),
+        Op::Append { other, new_ms } => {
+            let o = match other {
+                Other::SelfClone => g.clone(),
+                Other::Small { verts, edges, scalar, .. } => small_other_model(verts, edges, scalar)?,
+            };
+            let names = names_for(&o, new_ms).ok_or("wrong number of names")?;
+            g.append(&o, &names)?;
+            out.other = Some((o, names));
+        }
+        Op::PlugVertex { m, b } => g.plug_vertex(*m, *b)?,
+        Op::PlugInput { i, b } => g.plug_io(false, *i, *b)?,
+        Op::PlugOutput { i, b } => g.plug_io(true, *i, *b)?,
+        Op::PlugInputs(l) => {
+            if l.len() != g.inputs.len() {
+                return Err("harness policy: full-length plug list".into());
+            }
+            g.plug_ios(false, l)?
+        }
+        Op::PlugOutputs(l) => {
+            if l.len() != g.outputs.len() {
+                return Err("harness policy: full-length plug list".into());
+            }
+            g.plug_ios(true, l)?
+        }
+        Op::MakeBipartite => {}
+    }
+    g.well_formed()?;
+    Ok(out)
+}
+
+// ---------------------------------------------------------------------------------------
+// the backend side of one operation
+// ---------------------------------------------------------------------------------------
+
+/// (check tag, fatal for the continuation of the history, detail)
+type RawViol = (String, bool, Value);
+
+struct Derived<G: GraphLike> {
+    bk: Bk<G>,
+    model: RefGraph,
+    structure_only: bool,
+}
+
+type Stats = BTreeMap<String, u64>;
+fn bump(s: &mut Stats, k: &str) {
+    *s.entry(k.to_string()).or_default() += 1;
+}
+
+fn named_class(v: V, vindex: V, live: bool) -> &'static str {
+    if live {
+        "live"
+    } else if v < vindex {
+        "hole"
+    } else if v == vindex {
+        "at-vindex"
+    } else {
+        "beyond-vindex"
+    }
+}
+
+fn tr_edit(e: &ListEdit, f: impl Fn(M) -> V) -> ListEdit {
+    match e {
+        ListEdit::Push(m) => ListEdit::Push(f(*m)),
+        ListEdit::Insert(i, m) => ListEdit::Insert(*i, f(*m)),
+        ListEdit::RetainNot(m) => ListEdit::RetainNot(f(*m)),
+        other => other.clone(),
+    }
+}
+
+fn build_small<O: GraphLike>(verts: &[MData], edges: &[(usize, usize, EType)], scalar: &([i64; 4], i32)) -> (O, Vec<V>) {
+    let mut o = O::new();
+    // an extra vertex that is deleted again, so that `other` itself has a hole / a gap
+    let junk = o.add_vertex(VType::Z);
+    let mut ids = vec![];
+    for (i, d) in verts.iter().enumerate() {
+        ids.push(o.add_vertex_with_data(to_vdata(d)));
+        if i == 0 {
+            o.remove_vertex(junk);
+        }
+    }
+    if verts.is_empty() {
+        o.remove_vertex(junk);
+    }
+    for &(s, t, e) in edges {
+        o.add_edge_with_type(ids[s], ids[t], e);
+    }
+    *o.scalar_mut() = to_scalar(scalar);
+    (o, ids)
+}
+
+/// read the harness's unique tags back from a graph and match them with the model
+fn recover_by_tags<G: GraphLike>(g: &G, mo: &RefGraph) -> Result<BTreeMap<M, V>, (String, Value)> {
+    let got = guarded(|| g.vertices().map(|v| (v, g.qubit(v))).collect::<Vec<(V, f64)>>()).map_err(|e| (format!("query-panic:{}", e.site()), json!(e.text())))?;
+    let mut by_tag: BTreeMap<u64, V> = BTreeMap::new();
+    for &(v, q) in &got {
+        if by_tag.insert(q.to_bits(), v).is_some() {
+            return Err(("result:vertex-set(tag-twice)".into(), json!({"tag": q, "vertices": format!("{got:?}")})));
+        }
+    }
+    let mut m2b = BTreeMap::new();
+    for (&m, d) in &mo.v {
+        match by_tag.remove(&d.qubit.to_bits()) {
+            Some(v) => {
+                m2b.insert(m, v);
+            }
+            None => return Err(("result:vertex-set(vertex-lost)".into(), json!({"model vertex": m, "tag": d.qubit, "vertices": format!("{got:?}")}))),
+        }
+    }
+    if !by_tag.is_empty() {
+        return Err(("result:vertex-set(extra-vertex)".into(), json!({"extra": format!("{by_tag:?}"), "vertices": format!("{got:?}")})));
+    }
+    Ok(m2b)
+}
+
+fn apply_backend<G: Kind>(
+    bk: &mut Bk<G>,
+    op: &Op,
+    pre: &RefGraph,
+    post: &RefGraph,
+    mout: &ModelOut,
+    named_ok: Option<bool>,
+    stats: &mut Stats,
+) -> (Vec<RawViol>, Option<Derived<G>>) {
+    let name = G::NAME;
+    let mut viols: Vec<RawViol> = vec![];
+    let mut panic_prefix = String::from("panic");
+    macro_rules! call {
+        ($body:expr) => {
+            match guarded(|| $body) {
+                Ok(x) => x,
+                Err(e) => {
+                    for (t, d) in classify_panic(&panic_prefix, e) {
+                        viols.push((t, true, d));
+                    }
+                    return (viols, None);
+                }
+            }
+        };
+    }
+    macro_rules! new_vertex {
+        ($m:expr, $v:expr, $vi:expr) => {{
+            let (m, v, vi): (M, V, V) = ($m, $v, $vi);
+            if bk.b2m.contains_key(&v) {
+                viols.push(("returned-id-already-live".into(), true, json!({"returned": v, "live": format!("{:?}", bk.b2m)})));
+                return (viols, None);
+            }
+            bk.bind(m, v);
+            bump(stats, &format!("{name}:new-vertex:{}", if v < vi { "hole-reused(id<vindex)" } else if v == vi { "at-vindex" } else { "above-vindex-of-op-start(append)" }));
+        }};
+    }
+    let vi0 = bk.g.vindex();
+    if retags(op) {
+        let tags: Vec<(V, f64)> = post.v.iter().filter(|(m, _)| pre.has(**m)).map(|(&m, d)| (bk.b(m), d.qubit)).collect();
+        call!(for &(v, q) in &tags {
+            bk.g.set_qubit(v, q)
+        });
+    }
+    let mut derived = None;
+    match op {
+        Op::AddVertex { ty, m } => {
+            let v = call!(bk.g.add_vertex(*ty));
+            new_vertex!(*m, v, vi0);
+        }
+        Op::AddVertexWithData { d, m } => {
+            let vd = to_vdata(d);
+            let v = call!(bk.g.add_vertex_with_data(vd));
+            new_vertex!(*m, v, vi0);
+        }
+        Op::AddVertexWithPhase { ty, ph, m } => {
+            let v = if (ph.0 + ph.1) % 2 == 0 { call!(bk.g.add_vertex_with_phase(*ty, *ph)) } else { call!(bk.g.add_vertex_with_phase(*ty, Rational64::new(ph.0, ph.1))) };
+            new_vertex!(*m, v, vi0);
+        }
+        Op::AddNamed { v, d, m } => {
+            let class = named_class(*v, vi0, bk.b2m.contains_key(v));
+            panic_prefix = format!("panic({})", if class == "at-vindex" || class == "beyond-vindex" { "v>=vindex" } else { class });
+            let vd = to_vdata(d);
+            bump(stats, &format!("{name}:named-attempt:{class}"));
+            let ok = call!(bk.g.add_named_vertex_with_data(*v, vd).is_ok());
+            bump(stats, &format!("{name}:named:{class}:{}", if ok { "Ok" } else { "Err" }));
+            if Some(ok) != named_ok {
+                viols.push((format!("result({class}):expected-{}-got-{}", if ok { "Err" } else { "Ok" }, if ok { "Ok" } else { "Err" }), true, json!({"v": v})));
+                return (viols, None);
+            }
+            if ok {
+                bk.bind(*m, *v);
+            }
+        }
+        Op::RemoveVertex { m } => {
+            let v = bk.b(*m);
+            call!(bk.g.remove_vertex(v));
+            bk.unbind(*m);
+        }
+        Op::AddEdge { s, t } => {
+            let (a, b) = (bk.b(*s), bk.b(*t));
+            call!(bk.g.add_edge(a, b));
+        }
+        Op::AddEdgeWithType { s, t, e } => {
+            let (a, b) = (bk.b(*s), bk.b(*t));
+            call!(bk.g.add_edge_with_type(a, b, *e));
+        }
+        Op::AddEdgeSmart { s, t, e } => {
+            let (a, b) = (bk.b(*s), bk.b(*t));
+            panic_prefix = format!("panic({})", mout.label.unwrap_or("?"));
+            call!(bk.g.add_edge_smart(a, b, *e));
+        }
+        Op::RemoveEdge { s, t } => {
+            let (a, b) = (bk.b(*s), bk.b(*t));
+            call!(bk.g.remove_edge(a, b));
+        }
+        Op::SetEdgeType { s, t, e } => {
+            let (a, b) = (bk.b(*s), bk.b(*t));
+            call!(bk.g.set_edge_type(a, b, *e));
+        }
+        Op::ToggleEdgeType { s, t } => {
+            let (a, b) = (bk.b(*s), bk.b(*t));
+            call!(bk.g.toggle_edge_type(a, b));
+        }
+        Op::SetPhase { m, ph } => {
+            let v = bk.b(*m);
+            match (ph.0 + ph.1).rem_euclid(3) {
+                0 => call!(bk.g.set_phase(v, *ph)),
+                1 => call!(bk.g.set_phase(v, Rational64::new(ph.0, ph.1))),
+                _ => call!(bk.g.set_phase(v, Phase::new(Rational64::new(ph.0, ph.1)))),
+            }
+        }
+        Op::AddToPhase { m, ph } => {
+            let v = bk.b(*m);
+            if (ph.0 + ph.1) % 2 == 0 {
+                call!(bk.g.add_to_phase(v, *ph))
+            } else {
+                call!(bk.g.add_to_phase(v, Rational64::new(ph.0, ph.1)))
+            }
+        }
+        Op::SetVertexType { m, ty } => {
+            let v = bk.b(*m);
+            call!(bk.g.set_vertex_type(v, *ty));
+        }
+        Op::SetCoord { m, x, y } => {
+            let v = bk.b(*m);
+            call!(bk.g.set_coord(v, Coord::new(*x, *y)));
+        }
+        Op::SetQubit { m, q } => {
+            let v = bk.b(*m);
+            call!(bk.g.set_qubit(v, *q));
+        }
+        Op::SetRow { m, r } => {
+            let v = bk.b(*m);
+            call!(bk.g.set_row(v, *r));
+        }
+        Op::SetVars { m, vars } => {
+            let (v, p) = (bk.b(*m), to_parity(vars));
+            call!(bk.g.set_vars(v, p));
+        }
+        Op::AddToVars { m, vars } => {
+            let (v, p) = (bk.b(*m), to_parity(vars));
+            call!(bk.g.add_to_vars(v, &p));
+        }
+        Op::SetInputs(l) => {
+            let l: Vec<V> = l.iter().map(|&m| bk.b(m)).collect();
+            call!(bk.g.set_inputs(l));
+        }
+        Op::SetOutputs(l) => {
+            let l: Vec<V> = l.iter().map(|&m| bk.b(m)).collect();
+            call!(bk.g.set_outputs(l));
+        }
+        Op::InputsMut(e) => {
+            let e = tr_edit(e, |m| bk.b(m));
+            call!(apply_list_edit(bk.g.inputs_mut(), &e, |v| v));
+        }
+        Op::OutputsMut(e) => {
+            let e = tr_edit(e, |m| bk.b(m));
+            call!(apply_list_edit(bk.g.outputs_mut(), &e, |v| v));
+        }
+        Op::Scalar(e) => match e {
+            ScalarEdit::MulSqrt2Pow(p) => call!(bk.g.scalar_mut().mul_sqrt2_pow(*p)),
+            ScalarEdit::MulPhase(k) => call!(bk.g.scalar_mut().mul_phase((*k, 4))),
+            ScalarEdit::MulBy(c, p) => call!(*bk.g.scalar_mut() *= to_scalar(&(*c, *p))),
+            ScalarEdit::Assign(c, p) => call!(*bk.g.scalar_mut() = to_scalar(&(*c, *p))),
+        },
+        Op::MulScalarFactor { key, s } => {
+            let e = expr_pool()[*key].clone();
+            call!(bk.g.mul_scalar_factor(e, to_scalar(s)));
+        }
+        Op::XToZ => call!(bk.g.x_to_z()),
+        Op::Adjoint => call!(bk.g.adjoint()),
+        Op::Pack { force } => {
+            let nv = bk.g.num_vertices();
+            call!(bk.g.pack(*force));
+            match recover_by_tags(&bk.g, post) {
+                Ok(m2b) => {
+                    let renamed = m2b != bk.m2b;
+                    bk.set_map(m2b);
+                    let vi1 = bk.g.vindex();
+                    bump(stats, &format!("{name}:pack({force}):{}:{}", if vi0 > nv { "had-holes" } else { "no-holes" }, if renamed { "renamed" } else if vi1 < vi0 { "truncated" } else { "identity" }));
+                    if name == "vec" && *force && vi1 != nv {
+                        viols.push(("pack(true)-leaves-holes".into(), false, json!({"vindex": vi1, "num_vertices": nv})));
+                    }
+                }
+                Err((t, d)) => {
+                    viols.push((t, true, d));
+                    return (viols, None);
+                }
+            }
+        }
+        Op::Clone { .. } => {
+            let c = call!(bk.g.clone());
+            if !call!(c == bk.g) {
+                viols.push(("result:clone-not-equal(==)".into(), false, json!({})));
+            }
+            derived = Some(Derived { bk: Bk { g: c, m2b: bk.m2b.clone(), b2m: bk.b2m.clone() }, model: post.clone(), structure_only: false });
+        }
+        Op::ToAdjoint => {
+            let c = call!(bk.g.to_adjoint());
+            derived = Some(Derived { bk: Bk { g: c, m2b: bk.m2b.clone(), b2m: bk.b2m.clone() }, model: mout.derived.clone().unwrap(), structure_only: false });
+        }
+        Op::Copy { adjoint, .. } => {
+            let c = call!(bk.g.copy(*adjoint));
+            let dm = mout.derived.clone().unwrap();
+            match recover_by_tags(&c, &dm) {
+                Ok(m2b) => {
+                    let ids: Vec<V> = m2b.values().copied().collect::<BTreeSet<_>>().into_iter().collect();
+                    if ids != (0..ids.len()).collect::<Vec<_>>() {
+                        viols.push(("result:copy-ids-not-consecutive".into(), false, json!({"ids": ids})));
+                    }
+                    let mut d = Derived { bk: Bk { g: c, m2b: BTreeMap::new(), b2m: BTreeMap::new() }, model: dm, structure_only: false };
+                    d.bk.set_map(m2b);
+                    derived = Some(d);
+                }
+                Err((t, d)) => viols.push((t, false, d)),
+            }
+        }
+        Op::Subgraph { verts } => {
+            let l: Vec<V> = verts.iter().map(|&m| bk.b(m)).collect();
+            let c = call!(bk.g.subgraph_from_vertices(l));
+            let dm = mout.derived.clone().unwrap();
+            match recover_by_tags(&c, &dm) {
+                Ok(m2b) => {
+                    let mut d = Derived { bk: Bk { g: c, m2b: BTreeMap::new(), b2m: BTreeMap::new() }, model: dm, structure_only: true };
+                    d.bk.set_map(m2b);
+                    derived = Some(d);
+                }
+                Err((t, d)) => viols.push((t, false, d)),
+            }
+        }
+        Op::Append { other, .. } => {
+            let (omodel, names) = mout.other.as_ref().unwrap();
+            let (vmap, o_m2b): (Vec<(V, V)>, BTreeMap<M, V>) = match other {
+                Other::SelfClone => {
+                    let og = call!(bk.g.clone());
+                    let vm = call!(bk.g.append_graph(&og));
+                    (vm.into_iter().collect(), bk.m2b.clone())
+                }
+                Other::Small { verts, edges, scalar, cross } => {
+                    if *cross {
+                        let (og, ids) = call!(build_small::<G::Cross>(verts, edges, scalar));
+                        let vm = call!(bk.g.append_graph(&og));
+                        bump(stats, &format!("{name}:append:other-backend"));
+                        (vm.into_iter().collect(), ids.into_iter().enumerate().collect())
+                    } else {
+                        let (og, ids) = call!(build_small::<G>(verts, edges, scalar));
+                        let vm = call!(bk.g.append_graph(&og));
+                        bump(stats, &format!("{name}:append:same-backend"));
+                        (vm.into_iter().collect(), ids.into_iter().enumerate().collect())
+                    }
+                }
+            };
+            let vm: BTreeMap<V, V> = vmap.iter().copied().collect();
+            let mut fresh_ids = BTreeSet::new();
+            let mut bad = vm.len() != omodel.num_vertices();
+            let mut binds = vec![];
+            for o in omodel.vertices() {
+                match vm.get(&o_m2b[&o]) {
+                    Some(&nb) if !bk.b2m.contains_key(&nb) && fresh_ids.insert(nb) => binds.push((names[&o], nb)),
+                    _ => bad = true,
+                }
+            }
+            if bad {
+                viols.push(("renaming-map-not-a-fresh-injection".into(), true, json!({"vmap": format!("{vm:?}"), "live-before": format!("{:?}", bk.b2m)})));
+                return (viols, None);
+            }
+            for (m, v) in binds {
+                new_vertex!(m, v, vi0);
+            }
+        }
+        Op::PlugVertex { m, b } => {
+            let v = bk.b(*m);
+            call!(bk.g.plug_vertex(v, *b));
+        }
+        Op::PlugInput { i, b } => call!(bk.g.plug_input(*i, *b)),
+        Op::PlugOutput { i, b } => call!(bk.g.plug_output(*i, *b)),
+        Op::PlugInputs(l) => call!(bk.g.plug_inputs(l)),
+        Op::PlugOutputs(l) => call!(bk.g.plug_outputs(l)),
+        Op::MakeBipartite => {
+            call!(bk.g.make_bipartite());
+            match guarded(|| bipartite_postcondition(pre, bk)) {
+                Ok(v) => viols.extend(v.into_iter().map(|(t, d)| (t, false, d))),
+                Err(e) => viols.extend(classify_panic("query-panic", e).into_iter().map(|(t, d)| (t, false, d))),
+            }
+        }
+    }
+    (viols, derived)
+}
+
+/// Loose postcondition of `make_bipartite` ("inserting opposite colored spiders between
+/// same-colored neighbors"): nothing else may change; edge types of the two new edges and
+/// the coordinates of the new spider are left open.
+fn bipartite_postcondition<G: GraphLike>(pre: &RefGraph, bk: &Bk<G>) -> Vec<(String, Value)> {
+    let g = &bk.g;
+    let mut mis = Mis { items: vec![] };
+    let vs: Vec<V> = g.vertices().collect();
+    let es: Vec<(V, V, EType)> = g.edges().collect();
+    if g.num_vertices() != vs.len() || g.num_edges() != es.len() {
+        mis.add("counts!=enumeration", (vs.len(), es.len()), (g.num_vertices(), g.num_edges()));
+    }
+    for (&m, d) in &pre.v {
+        let v = bk.b(m);
+        match g.vertex_data_opt(v) {
+            Some(vd) if vd.ty == d.ty && phase_eq(vd.phase, d.phase) && vd.vars == to_parity(&d.vars) && vd.qubit == d.qubit && vd.row == d.row => {}
+            other => mis.add("old-vertex-changed", (m, d), other),
+        }
+    }
+    let newv: Vec<V> = vs.iter().copied().filter(|v| !bk.b2m.contains_key(v)).collect();
+    let mut used = BTreeSet::new();
+    let mut n_same = 0;
+    for (s, t, e) in pre.edges() {
+        let (a, b) = (bk.b(s), bk.b(t));
+        let (ts, tt) = (pre.v[&s].ty, pre.v[&t].ty);
+        if ts == tt && (ts == VType::Z || ts == VType::X) {
+            n_same += 1;
+            let want = if ts == VType::Z { VType::X } else { VType::Z };
+            let mids: Vec<V> = newv
+                .iter()
+                .copied()
+                .filter(|&w| {
+                    let mut nb = g.neighbor_vec(w);
+                    nb.sort();
+                    nb == vec![a.min(b), a.max(b)]
+                })
+                .collect();
+            let ok = !g.connected(a, b) && mids.len() == 1 && g.vertex_type(mids[0]) == want && phase_eq(g.phase(mids[0]), Ph::zero()) && used.insert(mids[0]);
+            if !ok {
+                mis.add("same-colour-edge-not-split", format!("one new {want:?}(0) spider between {a} and {b}"), (&mids, g.connected(a, b)));
+            }
+        } else if g.edge_type_opt(a, b) != Some(e) {
+            let cls = if ts == tt { "between-equal-types-other-than-Z/X" } else { "between-different-types" };
+            mis.add(&format!("other-edge-changed({cls})"), ((a, b), (ts, tt), Some(e)), g.edge_type_opt(a, b));
+        }
+    }
+    if newv.len() != n_same {
+        mis.add("new-vertex-count", n_same, newv.len());
+    }
+    for &(s, t, e) in &es {
+        if let (Some(&ms), Some(&mt)) = (bk.b2m.get(&s), bk.b2m.get(&t)) {
+            if pre.edge(ms, mt).is_none() {
+                mis.add("new-edge-between-old-vertices", "none", (s, t, e));
+            }
+        }
+    }
+    let tm = |l: &Vec<V>| l.iter().map(|v| bk.b2m.get(v).copied()).collect::<Vec<_>>();
+    if tm(g.inputs()) != pre.inputs.iter().map(|&m| Some(m)).collect::<Vec<_>>() || tm(g.outputs()) != pre.outputs.iter().map(|&m| Some(m)).collect::<Vec<_>>() {
+        mis.add("inputs/outputs-changed", (&pre.inputs, &pre.outputs), (g.inputs(), g.outputs()));
+    }
+    if !scalar_is_approx(g.scalar()) && r_of_scalar(g.scalar()) != pre.scalar {
+        mis.add("scalar-changed", pre.scalar.to_string(), r_of_scalar(g.scalar()).to_string());
+    }
+    mis.items
+}
+
+// ---------------------------------------------------------------------------------------
+// executor: one history on vec + hash + model
+// ---------------------------------------------------------------------------------------
+
+#[derive(Clone, Debug)]
+pub struct Viol {
+    pub sig: String,
+    pub fatal: bool,
+    pub detail: Value,
+}
+
+struct Shadow {
+    model: RefGraph,
+    vecb: Bk<VG>,
+    hashb: Bk<HG>,
+    ttl: usize,
+    what: &'static str,
+}
+
+#[derive(Default)]
+pub struct StepOut {
+    pub invalid: Option<String>,
+    pub viols: Vec<Viol>,
+    /// harness or oracle trouble: not a verdict
+    pub trouble: Vec<String>,
+    pub stop: bool,
+}
+
+pub struct Exec {
+    pub model: RefGraph,
+    pub vecb: Bk<VG>,
+    pub hashb: Bk<HG>,
+    shadow: Option<Shadow>,
+    next_tag: u64,
+    pub stats: Stats,
+    pub max_vertices: usize,
+    pub max_holes_vec: usize,
+    pub max_gap_hash: usize,
+}
+
+const NONFATAL_TAGS: [&str; 3] =
+    ["find_edge:result-not-normalised(s>t)", "find_edge:order-sensitive-predicate(s>t)-answered", "pack(true)-leaves-holes"];
+
+/// merge per-backend findings: the same tag from both backends becomes one `vec+hash` entry
+fn merge(kind: &str, prefix: &str, vv: Vec<RawViol>, hv: Vec<RawViol>, out: &mut StepOut, stats: &mut Stats) {
+    let mut all: BTreeMap<String, (Vec<&'static str>, bool, Vec<Value>)> = BTreeMap::new();
+    for (name, list) in [("vec", vv), ("hash", hv)] {
+        for (tag, fatal, d) in list {
+            if tag.starts_with("SKIP:") {
+                bump(stats, &format!("{tag}:{name}"));
+                continue;
+            }
+            if tag.starts_with("HARNESS:") || tag.starts_with("ORACLE:") {
+                out.trouble.push(tag);
+                out.stop = true;
+                continue;
+            }
+            let e = all.entry(tag).or_insert((vec![], false, vec![]));
+            e.0.push(name);
+            e.1 |= fatal;
+            e.2.push(json!({"backend": name, "mismatch": d}));
+        }
+    }
+    for (tag, (names, fatal, ds)) in all {
+        // a defect of a query itself does not depend on the operation that preceded it
+        let sig = match tag.strip_prefix("find_edge:") {
+            Some(rest) => format!("find_edge|{rest}|{}", names.join("+")),
+            None => format!("{kind}|{prefix}{tag}|{}", names.join("+")),
+        };
+        out.viols.push(Viol { sig, fatal, detail: Value::Array(ds) });
+        out.stop |= fatal;
+    }
+}
+
+fn state_viols<G: GraphLike>(mo: &RefGraph, bk: &Bk<G>, structure_only: bool) -> Vec<RawViol> {
+    check_state(mo, bk, structure_only).into_iter().map(|(t, d)| {
+        let fatal = !NONFATAL_TAGS.contains(&t.as_str());
+        (t, fatal, d)
+    }).collect()
+}
+
+impl Exec {
+    pub fn new() -> Exec {
+        Exec { model: RefGraph::new(), vecb: Bk::new(), hashb: Bk::new(), shadow: None, next_tag: 1000, stats: Stats::new(), max_vertices: 0, max_holes_vec: 0, max_gap_hash: 0 }
+    }
+
+    pub fn named_view(&self) -> NamedView {
+        let (vv, vh) = (self.vecb.g.vindex(), self.hashb.g.vindex());
+        let top = vv.max(vh) + 5;
+        let lv = |v: &V| self.vecb.b2m.contains_key(v);
+        let lh = |v: &V| self.hashb.b2m.contains_key(v);
+        NamedView {
+            free_both: (0..top).filter(|v| !lv(v) && !lh(v)).collect(),
+            live_both: (0..top).filter(|v| lv(v) && lh(v)).collect(),
+            vindex_vec: vv,
+            vindex_hash: vh,
+        }
+    }
+
+    pub fn step(&mut self, op: &Op) -> StepOut {
+        let mut out = StepOut::default();
+        let kind = op.kind();
+        let named_ok = match op {
+            Op::AddNamed { v, .. } => match (self.vecb.b2m.contains_key(v), self.hashb.b2m.contains_key(v)) {
+                (true, true) => Some(false),
+                (false, false) => Some(true),
+                _ => None,
+            },
+            _ => None,
+        };
+        let pre = self.model.clone();
+        let mut post = pre.clone();
+        let mout = match guarded(|| apply_model(&mut post, op, named_ok, self.next_tag)) {
+            Ok(Ok(m)) => m,
+            Ok(Err(why)) => {
+                out.invalid = Some(why);
+                return out;
+            }
+            Err(e) => {
+                out.trouble.push(format!("model panicked: {}", e.text()));
+                out.stop = true;
+                return out;
+            }
+        };
+        if retags(op) {
+            self.next_tag += pre.num_vertices() as u64 + 1;
+        }
+        bump(&mut self.stats, &format!("op:{kind}"));
+        if let Some(l) = mout.label {
+            bump(&mut self.stats, &format!("smart:{l}"));
+        }
+        let mut stats = std::mem::take(&mut self.stats);
+        let (vv, dv) = apply_backend(&mut self.vecb, op, &pre, &post, &mout, named_ok, &mut stats);
+        let (hv, dh) = apply_backend(&mut self.hashb, op, &pre, &post, &mout, named_ok, &mut stats);
+        merge(kind, "", vv, hv, &mut out, &mut stats);
+        self.model = post;
+        if out.stop {
+            self.stats = stats;
+            return out;
+        }
+        if matches!(op, Op::MakeBipartite) {
+            // terminal operation, judged by its own loose postcondition
+            out.stop = true;
+            self.stats = stats;
+            return out;
+        }
+        // ---- full state comparison of the main graphs
+        let sv = state_viols(&self.model, &self.vecb, false);
+        let sh = state_viols(&self.model, &self.hashb, false);
+        bump(&mut stats, "state-comparisons");
+        bump(&mut stats, "state-comparisons");
+        merge(kind, "", sv, sh, &mut out, &mut stats);
+        // ---- derived graphs
+        let mut derived_clean = true;
+        if let (Some(dv), Some(dh)) = (&dv, &dh) {
+            let a = state_viols(&dv.model, &dv.bk, dv.structure_only).into_iter().map(|(t, _, d)| (t, false, d)).collect::<Vec<_>>();
+            let b = state_viols(&dh.model, &dh.bk, dh.structure_only).into_iter().map(|(t, _, d)| (t, false, d)).collect::<Vec<_>>();
+            bump(&mut stats, "derived-graph-comparisons");
+            bump(&mut stats, "derived-graph-comparisons");
+            let before = out.viols.len();
+            merge(kind, "result:", a, b, &mut out, &mut stats);
+            derived_clean = out.viols.len() == before;
+        } else if dv.is_some() != dh.is_some() {
+            derived_clean = false;
+        }
+        derived_clean &= !out.viols.iter().any(|v| v.sig.contains("|result:"));
+        if !out.stop {
+            if let (Some(dv), Some(dh)) = (dv, dh) {
+                match op {
+                    Op::Clone { adopt, ttl } => {
+                        let (mut sv, mut sh) = (dv.bk, dh.bk);
+                        if *adopt && derived_clean {
+                            std::mem::swap(&mut self.vecb.g, &mut sv.g);
+                            std::mem::swap(&mut self.hashb.g, &mut sh.g);
+                            bump(&mut stats, "clone:history-continues-on-clone");
+                        } else {
+                            bump(&mut stats, "clone:history-continues-on-original");
+                        }
+                        let what = if *adopt && derived_clean { "original-after-mutating-clone" } else { "clone-after-mutating-original" };
+                        self.shadow = Some(Shadow { model: self.model.clone(), vecb: sv, hashb: sh, ttl: *ttl, what });
+                    }
+                    Op::Copy { adopt: true, .. } if derived_clean => {
+                        self.vecb = dv.bk;
+                        self.hashb = dh.bk;
+                        self.model = dv.model;
+                        self.shadow = None;
+                        bump(&mut stats, "copy:history-continues-on-copy");
+                    }
+                    _ => {}
+                }
+            }
+        }
+        // ---- independence of a kept clone
+        if !matches!(op, Op::Clone { .. }) {
+            if let Some(sh) = self.shadow.as_mut() {
+                let a: Vec<RawViol> = state_viols(&sh.model, &sh.vecb, false).into_iter().filter(|x| !NONFATAL_TAGS.contains(&x.0.as_str())).map(|(t, _, d)| (t, false, d)).collect();
+                let b: Vec<RawViol> = state_viols(&sh.model, &sh.hashb, false).into_iter().filter(|x| !NONFATAL_TAGS.contains(&x.0.as_str())).map(|(t, _, d)| (t, false, d)).collect();
+                bump(&mut stats, "independence-checks");
+                let prefix = format!("not-independent({}):", sh.what);
+                merge("clone", &prefix, a, b, &mut out, &mut stats);
+                sh.ttl -= 1;
+                if sh.ttl == 0 {
+                    self.shadow = None;
+                }
+            }
+        }
+        self.stats = stats;
+        let nv = self.model.num_vertices();
+        self.max_vertices = self.max_vertices.max(nv);
+        self.max_holes_vec = self.max_holes_vec.max(self.vecb.g.vindex().saturating_sub(nv));
+        self.max_gap_hash = self.max_gap_hash.max(self.hashb.g.vindex().saturating_sub(nv));
+        out
+    }
+}
+
+/// Replay a fixed history leniently (operations that are not valid any more are skipped);
+/// returns every signature seen.
+pub fn replay_signatures(ops: &[Op]) -> BTreeSet<String> {
+    let mut ex = Exec::new();
+    let mut sigs = BTreeSet::new();
+    for op in ops {
+        let o = ex.step(op);
+        for v in o.viols {
+            sigs.insert(v.sig);
+        }
+        if o.stop {
+            break;
+        }
+    }
+    sigs
+}
+
+/// Greedy delta debugging: smallest sub-history (found) that still shows `sig`.
+pub fn shrink(ops: &[Op], sig: &str) -> Vec<Op> {
+    let mut cur: Vec<Op> = ops.to_vec();
+    if !replay_signatures(&cur).contains(sig) {
+        return cur; // not reproducible leniently: keep the full history
+    }
+    let mut chunk = (cur.len() / 2).max(1);
+    let mut budget = 3000;
+    let mut len_at_last_unit_pass = usize::MAX;
+    loop {
+        let mut i = 0;
+        while i < cur.len() && budget > 0 {
+            let mut cand = cur.clone();
+            let hi = (i + chunk).min(cand.len());
+            cand.drain(i..hi);
+            budget -= 1;
+            if replay_signatures(&cand).contains(sig) {
+                cur = cand;
+            } else {
+                i += chunk;
+            }
+        }
+        if budget == 0 {
+            break;
+        }
+        if chunk == 1 {
+            if cur.len() == len_at_last_unit_pass {
+                break;
+            }
+            len_at_last_unit_pass = cur.len();
+        }
+        chunk = (chunk / 2).max(1);
+    }
+    // only operations that are actually executed
+    let mut ex = Exec::new();
+    let mut kept = vec![];
+    for op in &cur {
+        let o = ex.step(op);
+        if o.invalid.is_none() {
+            kept.push(op.clone());
+        }
+        if o.stop {
+            break;
+        }
+    }
+    if replay_signatures(&kept).contains(sig) {
+        kept
+    } else {
+        cur
+    }
+}
+
+fn ops_json(ops: &[Op]) -> Value {
+    Value::Array(ops.iter().enumerate().map(|(i, o)| json!(format!("{i}: {o:?}"))).collect())
+}
+
+/// The first occurrence of a signature is reported with full detail (and a minimised
+/// history); later occurrences only count. Other threads wait until the first report is in.
+fn report(sig: &str, family: &'static str, index: u64, detail: impl FnOnce() -> Value) {
+    use std::collections::HashMap;
+    use std::sync::Arc;
+    static SEEN: OnceLock<Mutex<HashMap<String, Arc<OnceLock<()>>>>> = OnceLock::new();
+    let cell = SEEN.get_or_init(|| Mutex::new(HashMap::new())).lock().unwrap().entry(sig.to_string()).or_default().clone();
+    let mut first = false;
+    cell.get_or_init(|| {
+        first = true;
+        ctx().violation(sig, family, index, detail());
+    });
+    if !first {
+        ctx().violation(sig, family, index, Value::Null);
+    }
+}
+
+/// Generate and run one history.
+fn run_history(family: &'static str, index: u64, r: &mut Rng, named_beyond: bool, max_len: usize) {
+    let c = ctx();
+    let prof = Profile::draw(r, named_beyond, max_len);
+    let mut ex = Exec::new();
+    let mut next_m: M = 0;
+    let mut history: Vec<Op> = vec![];
+    let mut applied = 0usize;
+    let mut ended_by = "length";
+    'hist: while applied < prof.len {
+        let mut ops = gen_ops(r, &ex.model, &ex.named_view(), &prof, &mut next_m);
+        if applied + ops.len() >= prof.len && r.chance(0.3) {
+            ops = vec![Op::MakeBipartite];
+        }
+        for op in ops {
+            history.push(op.clone());
+            let o = ex.step(&op);
+            if let Some(why) = &o.invalid {
+                c.harness_error(&format!("generator emitted an invalid operation {op:?}: {why}"));
+                break 'hist;
+            }
+            applied += 1;
+            for t in &o.trouble {
+                if t.starts_with("HARNESS:") || t.starts_with("model panicked") {
+                    c.harness_error(&format!("{family}#{index} step {}: {t}", history.len() - 1));
+                } else {
+                    c.inconclusive("oracle-error", json!({"family": family, "index": index, "step": history.len() - 1, "msg": t}));
+                }
+            }
+            for v in &o.viols {
+                report(&v.sig, family, index, || {
+                    let minimal = shrink(&history, &v.sig);
+                    json!({
+                        "what": "operation outcome or observable state differs from the reference model",
+                        "step": history.len() - 1,
+                        "operation": format!("{op:?}"),
+                        "fatal_for_history": v.fatal,
+                        "mismatches_at_that_step_of_the_full_history": v.detail,
+                        "history": ops_json(&history),
+                        "minimised_history": ops_json(&minimal),
+                        "state_after": {"model": model_dump(&ex.model), "vec": ex.vecb.dump(), "hash": ex.hashb.dump()},
+                        "profile": format!("{prof:?}"),
+                    })
+                });
+            }
+            if o.stop {
+                ended_by = if matches!(op, Op::MakeBipartite) { "make_bipartite(terminal)" } else { "stopped-by-violation-or-trouble" };
+                break 'hist;
+            }
+        }
+    }
+    // evidence
+    for (k, v) in &ex.stats {
+        c.count(k, *v);
+    }
+    c.count(&format!("history-ended:{ended_by}"), 1);
+    c.count("operations-applied", applied as u64);
+    c.maximum("max_history_length", applied as u64);
+    c.maximum("max_vertices", ex.max_vertices as u64);
+    c.maximum("max_holes_vec(vindex-num_vertices)", ex.max_holes_vec as u64);
+    c.maximum("max_gap_hash(vindex-num_vertices)", ex.max_gap_hash as u64);
+    let reused = ex.stats.get("vec:new-vertex:hole-reused(id<vindex)").copied().unwrap_or(0);
+    let removed = ex.stats.get("op:remove_vertex").copied().unwrap_or(0);
+    let nontrivial = applied >= 20 && reused >= 1 && removed >= 1;
+    let h = hash_str(&format!("{history:?}"));
+    c.case(family, if nontrivial { Some(h) } else { None });
+    c.sample_n(4, || json!({"family": family, "index": index, "profile": format!("{prof:?}"), "applied": applied, "first_operations": ops_json(&history[..history.len().min(25)])}));
+}
+
+fn self_test() -> Result<(), String> {
+    refgraph::self_test().map_err(|e| format!("refgraph: {e}"))?;
+    let pool = expr_pool();
+    if pool.len() != EXPR_POOL {
+        return Err("expression pool size".into());
+    }
+    for i in 0..pool.len() {
+        for j in 0..i {
+            if pool[i] == pool[j] {
+                return Err(format!("expression pool entries {i} and {j} coincide"));
+            }
+        }
+    }
+    // the executor on a hand-written history must stay silent about state and find the same graph
+    let ops = vec![
+        Op::AddVertex { ty: VType::Z, m: 0 },
+        Op::AddVertex { ty: VType::X, m: 1 },
+        Op::AddEdge { s: 0, t: 1 },
+        Op::RemoveVertex { m: 0 },
+        Op::AddVertexWithPhase { ty: VType::Z, ph: (9, 4), m: 2 },
+        Op::AddEdgeSmart { s: 2, t: 1, e: EType::H },
+        Op::Pack { force: true },
+    ];
+    let mut ex = Exec::new();
+    for op in &ops {
+        let o = ex.step(op);
+        if o.invalid.is_some() || !o.trouble.is_empty() || o.viols.iter().any(|v| v.fatal) {
+            return Err(format!("executor self-test failed at {op:?}: {:?} {:?} {:?}", o.invalid, o.trouble, o.viols));
+        }
+    }
+    if ex.model.num_vertices() != 2 || ex.model.edge(1, 2) != Some(EType::H) || ex.model.v[&2].phase != Ph::new(1, 4) {
+        return Err("executor self-test: wrong final model".into());
+    }
+    // the comparison must notice a model/backend difference (sanity of the checker itself)
+    let mut wrong = ex.model.clone();
+    wrong.set_edge_type(1, 2, EType::N).unwrap();
+    if check_state(&wrong, &ex.vecb, false).is_empty() || check_state(&wrong, &ex.hashb, false).is_empty() {
+        return Err("state comparison does not notice a changed edge type".into());
+    }
+    let _ = BasisElem::SKIP;
+    Ok(())
+}
 
 pub fn run() {
-    ctx().harness_error("C09 monitor not implemented yet");
+    let c = ctx();
+    if let Err(e) = self_test() {
+        c.harness_error(&format!("C09 self-test: {e}"));
+        return;
+    }
+    c.set_rule(
+        "case = one generated history (20-400 operations of the public GraphLike interface) applied to vec_graph, hash_graph and the reference model with a full observable-state comparison after every operation; non-trivial when >= 20 operations were applied, at least one vertex was removed and the vector backend reused at least one hole; distinct = distinct operation lists (64-bit hash)",
+    );
+    c.assume("reference model O5 (harness/src/oracle/refgraph.rs) implements the documented meaning of each operation (self-tested at start); exact scalar arithmetic O1");
+    c.assume("harness policy: input/output lists only ever name live vertices (a vertex is taken off the lists before it is removed); plug_* only on boundary vertices with one neighbour; plug_inputs/plug_outputs with full-length lists (the short-list panic belongs to C11)");
+    c.assume("add_edge_smart: the pi phase of an N||H pair is expected on the first argument (the calculus allows either end; the shared default method uses `s`)");
+    c.assume("append_graph/adjoint leave scalar *factors* alone, copy() keeps them: the documentation is silent; only the documented parts are demanded");
+    c.assume("named insertion is issued only with ids that are free in both backends or live in both backends");
+    let t = c.tier;
+    let (n, max_len) = t.pick((1500usize, 400usize), (100_000usize, 400usize));
+    par_cases("hist-core", n, move |r, i| run_history("hist-core", i, r, false, max_len));
+    par_cases("hist-named", n, move |r, i| run_history("hist-named", i, r, true, max_len));
+    c.extra("exhaustive", json!(false));
 }
